@@ -250,7 +250,7 @@ pub fn scn_snapshots(o: &Opts, tr: &mut Tr, prop: &str) {
         let d = gen::data(&format!("period{}", period), *n, &mut r);
         let zl = k % 2 == 0;
         let cfg = Cfg { zlib: zl, level: [6u8, 9, 1, 6][k % 4], strat: 0, wbits: 15, api: "params" };
-        let z = make_stream(&d, &cfg, false, &mut r);
+        let z = make_stream(&d, &cfg, k % 2 == 0, &mut r);
         srcs.push(crate::scn_dec::Src { name: format!("win{}", period), z, p: d, zlib: zl });
     }
     let nsample = srcs.len();
@@ -443,6 +443,62 @@ pub fn scn_snapshots(o: &Opts, tr: &mut Tr, prop: &str) {
                 }
             }
             tr.ev(json!({"ev": "bb_end", "count": count}));
+            // the same with a 32 KiB ring as output (the caller drains it after every call): at each
+            // boundary a decoder rebuilt from the record continues in a copy of the ring
+            if variant == 0 && s.p.len() > 33_000 {
+                let ring = 32768usize;
+                let cont_ring = |d: &mut DecompressorOxide, rb: &mut Vec<u8>, mut ip: usize, mut total: usize, rs: &mut StdRng| -> Value {
+                    let mut got: Vec<u8> = Vec::new();
+                    let mut last = String::new();
+                    for _ in 0..20000 {
+                        let rem = z.len() - ip;
+                        let ch = match rs.gen_range(0..3) { 0 => rs.gen_range(0..200).min(rem), _ => rem };
+                        let more = ip + ch < z.len();
+                        let flags = base | if more { TINFL_FLAG_HAS_MORE_INPUT } else { 0 };
+                        let pos = total & (ring - 1);
+                        let (st, used, w) = decompress(d, &z[ip..ip + ch], rb, pos, flags);
+                        ip += used.min(ch);
+                        got.extend_from_slice(&rb[pos..(pos + w).min(ring)]);
+                        total += w;
+                        last = st_name(st);
+                        if st != TINFLStatus::NeedsMoreInput && st != TINFLStatus::HasMoreOutput { break; }
+                        if st == TINFLStatus::NeedsMoreInput && ip == z.len() { break; }
+                    }
+                    json!({"status": last, "consumed_total": ip, "out": out_val(&got)})
+                };
+                let mut d = DecompressorOxide::new();
+                let mut rb = vec![0u8; ring];
+                let (mut ip, mut total) = (0usize, 0usize);
+                let mut rs = StdRng::seed_from_u64(sched_seed ^ 0x99);
+                for _ in 0..20000 {
+                    let rem = z.len() - ip;
+                    let ch = match rs.gen_range(0..3) { 0 => rs.gen_range(0..300).min(rem), _ => rem };
+                    let more = ip + ch < z.len();
+                    let flags = base | TINFL_FLAG_STOP_ON_BLOCK_BOUNDARY | if more { TINFL_FLAG_HAS_MORE_INPUT } else { 0 };
+                    let pos = total & (ring - 1);
+                    let (st, used, w) = decompress(&mut d, &z[ip..ip + ch], &mut rb, pos, flags);
+                    ip += used.min(ch);
+                    total += w;
+                    if st == TINFLStatus::BlockBoundary {
+                        if let Some(b) = d.block_boundary_state() {
+                            let fork_seed: u64 = rs.gen();
+                            let mut d0 = d.clone();
+                            let mut r0b = rb.clone();
+                            let r0 = cont_ring(&mut d0, &mut r0b, ip, total, &mut StdRng::seed_from_u64(fork_seed));
+                            let rec = if s.zlib { b.clone() } else {
+                                BlockBoundaryState { num_bits: b.num_bits, bit_buf: b.bit_buf, ..Default::default() }
+                            };
+                            let mut d1 = DecompressorOxide::from_block_boundary_state(&rec);
+                            let mut r1b = rb.clone();
+                            let r1 = cont_ring(&mut d1, &mut r1b, ip, total, &mut StdRng::seed_from_u64(fork_seed));
+                            mism |= emit_pair(tr, "rebuilt_from_block_boundary_record_resumes_identically_in_a_ring", &r0, &r1);
+                        }
+                        continue;
+                    }
+                    if st != TINFLStatus::NeedsMoreInput && st != TINFLStatus::HasMoreOutput { break; }
+                    if st == TINFLStatus::NeedsMoreInput && ip == z.len() { break; }
+                }
+            }
             if si >= nsample { tr.release(mism); }
         }
     }
